@@ -1089,6 +1089,13 @@ class Merge3Merger:
             from breezy import delta
 
             delta.report_changes(self.tt.iter_changes(), self.change_reporter)
+        if not self.working_tree.has_versioned_directories():
+            # Directories of such a tree (git) exist exactly as long as
+            # something is in them. When OTHER emptied a directory THIS still
+            # has files in, the conflict pass has already cancelled the
+            # deletion and nothing is lost: not a conflict worth reporting
+            # (the mirror image, "missing parent", is not reported either).
+            fs_conflicts = [c for c in fs_conflicts if c[0] != "deleting parent"]
         self.cook_conflicts(fs_conflicts)
         for conflict in self.cooked_conflicts:
             trace.warning("%s", conflict.describe())
